@@ -58,12 +58,13 @@ func vfC19GenStream(rt *rapid.T, c *vfCase) (vfC17Cfg, []vfC17Op) {
 	if vfThorough() {
 		maxOps = 28
 	}
-	n := rapid.IntRange(4, maxOps).Draw(rt, "nops")
+	n := rapid.IntRange(6, maxOps).Draw(rt, "nops")
 	// per-case flavour keeps single cases focused (mostly one channel / mostly versions / mostly idempotency)
 	chBias := rapid.SampledFrom([]int{0, 0, 1, 2}).Draw(rt, "chBias") // 0: channel 0 only, 1: channel 1 only, 2: both
 	idemPct := rapid.SampledFrom([]int{8, 8, 30, 60}).Draw(rt, "idemPct")
 	advPct := rapid.SampledFrom([]int{10, 20, 35}).Draw(rt, "advPct")
 	ops := make([]vfC17Op, 0, n)
+	lastUnver := make([]bool, len(cfg.Chans))
 	for i := 0; i < n; i++ {
 		op := vfC17Op{}
 		switch chBias {
@@ -91,9 +92,16 @@ func vfC19GenStream(rt *rapid.T, c *vfCase) (vfC17Cfg, []vfC17Op) {
 				op.IdemKey = rapid.SampledFrom([]string{"k", "k", "b_k", "j"}).Draw(rt, "ikey")
 				op.IdemTTL = rapid.SampledFrom([]int{0, 1, 1, 2, 3}).Draw(rt, "ittl")
 			}
-			if rapid.IntRange(0, 99).Draw(rt, "ver") < 60 {
+			verPct := 45 // alternate: after an unversioned publish a versioned one is more likely, and vice versa
+			if lastUnver[op.Ch] {
+				verPct = 75
+			}
+			if rapid.IntRange(0, 99).Draw(rt, "ver") < verPct {
 				op.Version = rapid.SampledFrom(vfC19Versions).Draw(rt, "version")
 				op.VEpoch = rapid.SampledFrom([]string{"", "", "x", "x", "y"}).Draw(rt, "vepoch")
+			}
+			if op.Size > 0 && op.TTL > 0 {
+				lastUnver[op.Ch] = op.Version == 0
 			}
 		case k < 100-advPct-3:
 			op.Kind = vfC17OpHistory
@@ -649,12 +657,13 @@ func vfC19GenMap(rt *rapid.T) (vfC19MCfg, []vfC19MOp) {
 	if vfThorough() {
 		maxOps = 30
 	}
-	n := rapid.IntRange(4, maxOps).Draw(rt, "nops")
+	n := rapid.IntRange(6, maxOps).Draw(rt, "nops")
 	chBias := rapid.SampledFrom([]int{0, 0, 0, 2}).Draw(rt, "chBias")
-	nKeys := rapid.IntRange(1, 3).Draw(rt, "nkeys")
+	nKeys := rapid.SampledFrom([]int{1, 1, 2, 3}).Draw(rt, "nkeys")
 	idemPct := rapid.SampledFrom([]int{8, 8, 30, 60}).Draw(rt, "idemPct")
 	advPct := rapid.SampledFrom([]int{8, 16, 30}).Draw(rt, "advPct")
 	ops := make([]vfC19MOp, 0, n)
+	lastUnver := map[string]bool{}
 	for i := 0; i < n; i++ {
 		op := vfC19MOp{Ch: chBias}
 		if chBias == 2 {
@@ -673,7 +682,10 @@ func vfC19GenMap(rt *rapid.T) (vfC19MCfg, []vfC19MOp) {
 			op.Kind = vfC19MPublish
 			op.Data = fmt.Sprintf("d%d", i)
 			drawIdem(idemPct)
-			verPct := 60
+			verPct := 45
+			if lastUnver[fmt.Sprint(op.Ch, op.Key)] {
+				verPct = 75
+			}
 			if cfg.Modes[op.Ch].IsEphemeral() {
 				verPct = 8
 			}
@@ -681,6 +693,7 @@ func vfC19GenMap(rt *rapid.T) (vfC19MCfg, []vfC19MOp) {
 				op.Version = rapid.SampledFrom(vfC19Versions).Draw(rt, "version")
 				op.VEpoch = rapid.SampledFrom([]string{"", "", "x", "x", "y"}).Draw(rt, "vepoch")
 			}
+			lastUnver[fmt.Sprint(op.Ch, op.Key)] = op.Version == 0
 		case k < 67:
 			op.Kind = vfC19MRemove
 			drawIdem(idemPct + 15)
